@@ -180,6 +180,10 @@ func (c *Counter) rollUp() {
 func (c *Counter) doRollUp(fromLabel, toLabel pb.RollUpLabel, rollUpDuration, truncateDuration time.Duration) {
 	newHistory := make([]*pb.History, 0)
 	var last *pb.History
+	// Use one clock reading for the whole pass. Entries are ordered by time, so
+	// with a moving clock a younger entry could be rolled up (and truncated to
+	// an earlier time) after an older one was kept.
+	now := time.Now()
 	for _, h := range c.history {
 		// case 1: h should not be rolled up
 		if h.GetRollUp() != fromLabel {
@@ -191,7 +195,7 @@ func (c *Counter) doRollUp(fromLabel, toLabel pb.RollUpLabel, rollUpDuration, tr
 			continue
 		}
 		t := time.UnixMilli(h.GetTimeUnixMilli())
-		if time.Since(t) <= rollUpDuration {
+		if now.Sub(t) <= rollUpDuration {
 			if last != nil {
 				newHistory = append(newHistory, last)
 				last = nil
